@@ -882,4 +882,88 @@ theorem decodeF_escStr : ∀ (s : Str), strOk s = true → ∀ n, (escStr s).len
 theorem decodeEsc : DecodeEsc := fun s hok => decodeF_escStr s hok _ (Nat.le_refl _)
 
 
+
+/-! ## the fuel of the scanner -/
+
+theorem skipWs_length (t : Str) : (skipWs t).length ≤ t.length := by
+  induction t with
+  | nil => simp [skipWs]
+  | cons c t ih => unfold skipWs; split <;> simp <;> omega
+
+theorem spanDigits_snd_length (t : Str) : (spanDigits t).2.length ≤ t.length := by
+  have := congrArg List.length (spanDigits_split t)
+  simp only [List.length_append] at this
+  omega
+
+theorem optComma_snd_length (t : Str) : (optComma t).2.length ≤ t.length := by
+  unfold optComma; split <;> simp
+
+/-- a match consumes at least one character. -/
+theorem matchAt_length {t r rest : Str} (h : matchAt t = some (r, rest)) : rest.length < t.length := by
+  unfold matchAt at h
+  split at h
+  next t2 h0 =>
+    dsimp only at h
+    split at h
+    · cases h
+    · split at h
+      next t5 h1 =>
+        split at h
+        · cases h
+        · split at h
+          next t8 h2 =>
+            split at h
+            next t10 h3 =>
+              split at h
+              next w t12 h4 =>
+                split at h
+                · simp only [Option.some.injEq, Prod.mk.injEq] at h
+                  obtain ⟨_, rfl⟩ := h
+                  have a0 := skipWs_length t
+                  have a1 := skipWs_length t2
+                  have a2 := spanDigits_snd_length (skipWs t2)
+                  have a3 := skipWs_length t5
+                  have a4 := spanDigits_snd_length (skipWs t5)
+                  have a5 := skipWs_length t8
+                  have a6 := optComma_snd_length t10
+                  have a7 := skipWs_length t12
+                  rw [h0] at a0; rw [h1] at a2; rw [h2] at a4; rw [h3] at a5; rw [h4] at a6
+                  simp only [List.length_cons] at a0 a2 a4 a5 a6
+                  omega
+                · cases h
+              · cases h
+            · cases h
+          · cases h
+      · cases h
+  · cases h
+
+/-- the result does not depend on the fuel once it covers the text. -/
+theorem compactF_fuel : ∀ (n m : Nat) (t : Str), t.length ≤ n → t.length ≤ m → compactF n t = compactF m t := by
+  intro n
+  induction n with
+  | zero =>
+    intro m t h _
+    have : t = [] := List.eq_nil_of_length_eq_zero (by omega)
+    subst this; cases m <;> simp [compactF]
+  | succ n ih =>
+    intro m t h1 h2
+    cases t with
+    | nil => cases m <;> simp [compactF]
+    | cons c t =>
+      cases m with
+      | zero => simp at h2
+      | succ m =>
+        simp only [List.length_cons] at h1 h2
+        unfold compactF
+        split
+        next r rest hm =>
+          have := matchAt_length hm
+          simp only [List.length_cons] at this
+          rw [ih m rest (by omega) (by omega)]
+        next hm => rw [ih m t (by omega) (by omega)]
+
+theorem compactF_eq_compact (n : Nat) (t : Str) (h : t.length ≤ n) : compactF n t = compact t :=
+  compactF_fuel n t.length t h (Nat.le_refl _)
+
+
 end Paroxy.JsonText
